@@ -101,12 +101,23 @@ package variants
 //@   modifies w, cErr, cWriteDone
 //@   ghost K Variant = arbitrary
 //@   ghost gOcc int = 0
-//@   after assign:Vskinny#1: do gOcc = gOcc + ite(Vskinny == K, 1, 0)
+//@   after assign:Vskinny#1: do gOcc = gOcc + ite(Vskinny == K, 1, 0); gCnt = true
+//@   # every mutation of every non-reference record that lies in the window is counted, once, under a key that carries its
+//@   # own fields: judged at the end of every path through the body of the inner loop against the window test computed from
+//@   # the data at its start (an added shortcut that skips a mutation fails [c13.every.mutation])
+//@   ghost gIn bool = false
+//@   ghost gCnt bool = false
+//@   ghost gMissed int = 0
+//@   after assign:Vskinny#1: assert [c13.key] Vskinny.RefAl == v.RefAl && Vskinny.QueAl == v.QueAl && Vskinny.Position == v.Position && Vskinny.Residue == v.Residue && Vskinny.Changetype == v.Changetype && Vskinny.Feature == v.Feature && Vskinny.Representation == rep
 //@   loop 1:
 //@     invariant !failed(w) && len(sent(cErr)) == 0 && len(sent(cWriteDone)) == 0 && len(written(w)) == 1
 //@     invariant [c13.counter] counter == float64(count(t, 0, range_i, recv(cVariants)[t].Queryname != refID))
 //@     invariant [c13.count] gOcc >= 0 && in(propMap, K) == (gOcc > 0) && propMap[K] == float64(gOcc)
+//@     invariant [c13.every.mutation] gMissed == 0
 //@   loop 2:
+//@     do-start gIn = !((start > 0 && v.Position < start) || (end > 0 && v.Position > end)); gCnt = false
+//@     do-end if gIn != gCnt { gMissed++ }
+//@     invariant [c13.every.mutation] gMissed == 0
 //@     invariant !failed(w) && len(sent(cErr)) == 0 && len(sent(cWriteDone)) == 0 && len(written(w)) == 1
 //@     invariant [c13.counter] counter == float64(count(t, 0, range_i1 + 1, recv(cVariants)[t].Queryname != refID))
 //@     invariant [c13.count] gOcc >= 0 && in(propMap, K) == (gOcc > 0) && propMap[K] == float64(gOcc)
